@@ -424,6 +424,7 @@ func checkC09(c *Ctx, r *Report) {
 	r.rule("C09.R1", "consistent lockset for every shared mutable field of a mutex-owning struct", 8)
 	r.rule("C09.R2", "every request-reachable Lock is released on every return path (explicitly or by defer)", 4)
 	r.rule("C09.R3", "lock-order graph acyclic; no self re-acquisition", 1)
+	r.rule("C09.R5", "after LoadOrStore on the subscriber pool the request goes on with the context that is in the pool, not with the one it offered", 1)
 	r.rule("C09.R4", "no check-then-act on the subscriber pool without a lock (LoadOrStore or one held lock)", 1)
 
 	sa := newSharedAnalysis(c)
@@ -489,6 +490,93 @@ func checkC09(c *Ctx, r *Report) {
 
 	// ---- R4 check-then-act on the pool
 	checkPoolAtomicity(c, r, sa, "C09.R4")
+	checkPoolWinner(c, r, "C09.R5")
+}
+
+// checkPoolWinner: LoadOrStore(key, mine) returns the value that is in the pool
+// - mine only if nobody was faster.  A function that goes on with (returns)
+// `mine` regardless hands a context to the request that is not the one every
+// other request of the subscriber finds: its sessions are lost to them.  Every
+// *ChfUe returned after the call must be the call's first result, or the
+// offered value on the edge where `loaded` is false.
+func checkPoolWinner(c *Ctx, r *Report, rule string) {
+	n := 0
+	for _, f := range c.ModFuncs {
+		eachInstr(f, func(_ *ssa.BasicBlock, _ int, ins ssa.Instruction) {
+			call, ok := ins.(*ssa.Call)
+			if !ok {
+				return
+			}
+			obj := calleeObj(&call.Call)
+			if obj == nil || obj.Pkg() == nil || obj.Pkg().Path() != "sync" || funcLocalName(obj) != "Map.LoadOrStore" || len(call.Call.Args) != 3 {
+				return
+			}
+			fa, ok := call.Call.Args[0].(*ssa.FieldAddr)
+			if !ok || !typeIs(fa.X.Type(), ctxPath, "CHFContext") || fieldName(fa) != "UePool" {
+				return
+			}
+			n++
+			key := fmt.Sprintf("%s|LoadOrStore #%d", fnKey(f), n)
+			offered := stripConv(call.Call.Args[2])
+			var actual, loaded ssa.Value
+			for _, ref := range *call.Referrers() {
+				if ex, ok := ref.(*ssa.Extract); ok {
+					if ex.Index == 0 {
+						actual = ex
+					} else {
+						loaded = ex
+					}
+				}
+			}
+			bad := ""
+			nret := 0
+			for _, ri := range returnsOf(f) {
+				if len(ri.Vals) == 0 || !typeIs(ri.Vals[0].Type(), ctxPath, "ChfUe") {
+					continue
+				}
+				if !canReach(call, ri.Point()) {
+					continue
+				}
+				if k, ok := ri.Vals[0].(*ssa.Const); ok && k.Value == nil {
+					continue
+				}
+				nret++
+				fromActual := false
+				if actual != nil {
+					for d := range depSet(f, ri.Vals[0]) {
+						if d == actual {
+							fromActual = true
+						}
+					}
+				}
+				if fromActual {
+					continue
+				}
+				// the offered value: only where loaded is known false
+				okEdge := false
+				if loaded != nil && stripConv(ri.Vals[0]) == offered {
+					for _, b := range f.Blocks {
+						if len(b.Instrs) == 0 || len(b.Succs) != 2 {
+							continue
+						}
+						if ifi, ok := b.Instrs[len(b.Instrs)-1].(*ssa.If); ok && ifi.Cond == loaded {
+							if edgeDominates(b, b.Succs[1], ri.At) {
+								okEdge = true
+							}
+						}
+					}
+				}
+				if !okEdge && bad == "" {
+					bad = fmt.Sprintf("the context returned at %s is %s, not the result of LoadOrStore", posOf(c, ri.Point()), describe(ri.Vals[0]))
+				}
+			}
+			r.check(bad == "" && nret > 0, rule, key, posOf(c, call), "every context returned after LoadOrStore is the one that is in the pool",
+				bad+": when a concurrent request stored the subscriber's context first, this request goes on with a private context that no other request finds - the session it opens is answered 201 and then lost (404 on update/release, no CDR)")
+		})
+	}
+	if n == 0 {
+		r.info(rule, "no LoadOrStore on the subscriber pool", "", "the pool is not filled with LoadOrStore (C09.R4 decides the alternative)")
+	}
 }
 
 // reportLocksetRule groups the accesses by field and emits one obligation per
